@@ -6,6 +6,7 @@ class C12(OptCheck):
     prop = "C12"
     vfiles = ["Properties/Properties_C12.v"]
     corpus = "C12.txt"
+    oracle_args = ("oracle", "C12")
     design_ref = "DESIGN.md section 6, C12"
     technique = "Coq proof (everything after the first -- is positional verbatim, greedy rest, limit, negative indices) + differential run enumerating limits x greedy x -- positions x indices"
     level_text = ""
